@@ -9,6 +9,7 @@
 #include <sstream>
 #include <string>
 #include <vector>
+#include <sys/time.h>
 #include <sys/wait.h>
 #include <unistd.h>
 
@@ -81,7 +82,12 @@ namespace vf {
         close(fd[0]);
         FILE *o = fdopen(fd[1], "w");
         for (size_t k = i; k < lines.size(); ++k) {
-          if (alarm_s) alarm(alarm_s);
+          if (alarm_s) {
+            // CPU-time limit per case (SIGPROF = 27); wall-clock alarms misfire when the machine is loaded
+            struct itimerval tv {};
+            tv.it_value.tv_sec = alarm_s;
+            setitimer(ITIMER_PROF, &tv, nullptr);
+          }
           std::string r = fn(lines[k]);
           for (auto &c : r) if (c == '\n') c = ' ';
           fprintf(o, "%s\n", r.c_str());
